@@ -318,6 +318,7 @@ class Engine:
         # parameter names in postconditions denote the values at entry (the body may re-bind them)
         env = {k: v for k, v in self.entry.env.items()}
         env["result"] = ret
+        env["RESULT"] = ret          # the same, under a name a lambda parameter called `result` (a recorded call's result) does not shadow
         if getattr(c, "batch_post", False):
             # one obligation per path: the conjunction of all postconditions (instances with very many paths)
             ens_ = c.all_ensures(self.reg)
@@ -583,6 +584,13 @@ class Engine:
         if v.k == "opaque":
             fn_ = z3.Function("intval_" + v.cls, opaque_sort(v.cls), z3.IntSort())     # the integer value of an int-like object
             return fn_(v.t)
+        if v.k == "opt" and v.t[1].k in ("int", "bool", "opaque"):
+            if self.spec_mode:
+                return self.as_int(v.t[1])
+            # an Optional used as a number: None raises TypeError (that path is pruned where the code has ruled None out)
+            if self.branch(v.t[0], "intnone"):
+                raise PyRaise("TypeError")
+            return self.as_int(v.t[1])
         raise OutOfReach(f"{self.c.key}: int expected, got {v.k}")
 
     def is_subclass(self, exc: str, base: str) -> bool:
@@ -987,9 +995,14 @@ class Engine:
                 st.ghost[f"L{ordn}_left_early"] = z3.IntVal(1)
                 return
             genv2 = dict(genv)
-            for k, srcg in spec.get("ghost_step", {}).items():
-                genv2[k] = self.clause_val(srcg, st, self.entry, genv)
-            self._loop_preserve(spec, lab, genv2)
+            full_, win_ = self._iter_window(n_before)
+            st.calls = win_
+            try:
+                for k, srcg in spec.get("ghost_step", {}).items():
+                    genv2[k] = self.clause_val(srcg, st, self.entry, genv)
+            finally:
+                st.calls = full_
+            self._loop_preserve(spec, lab, genv2, n_before)
             raise PathAbort()
         else:
             st.ghost[f"L{ordn}_left_early"] = z3.IntVal(0)
@@ -1145,12 +1158,22 @@ class Engine:
             self.heap_set(recv, f, self._havoc_value(cur, f"{recv.t}.{f}"))
         return True
 
-    def _loop_preserve(self, spec, lab, env):
-        for cl in spec.get("iter_post", []):
-            g = self.clause_bool(cl, self.st, self.entry, env)
-            self.path_label.append(lab + "iter")
-            self.emit("iter-post", g, clause=cl)
-            self.path_label.pop()
+    def _iter_window(self, base):
+        """the call log of the current iteration only: what was recorded after the loop head"""
+        full = self.st.calls
+        return full, {k: v[base.get(k, 0):] for k, v in full.items()}
+
+    def _loop_preserve(self, spec, lab, env, base=None):
+        full, win = self._iter_window(base or {})
+        self.st.calls = win              # iter_post talks about this iteration's calls, not about what ran before the loop
+        try:
+            for cl in spec.get("iter_post", []):
+                g = self.clause_bool(cl, self.st, self.entry, env)
+                self.path_label.append(lab + "iter")
+                self.emit("iter-post", g, clause=cl)
+                self.path_label.pop()
+        finally:
+            self.st.calls = full
         for inv in spec["inv"]:
             g = self.clause_bool(inv, self.st, self.entry, env)
             self.path_label.append(lab + "keep")
@@ -1226,6 +1249,7 @@ class Engine:
                 for inv in spec["inv"]:
                     if re.search(r"\b" + re.escape(gname) + r"\b", inv):
                         st.pc.append(self.clause_bool(inv, st, self.entry, inst))
+        n_before = {k: len(v) for k, v in st.calls.items()}
         if self.branch(gi < n, lab + "c"):
             elem = it["elem"](gi)
             if spec.get("elem_sort") and it["kind"] == "opaque":
@@ -1264,14 +1288,19 @@ class Engine:
                 st.pc.append(d2 == z3.SubSeq(it["seq"], 0, gi + 1))
                 st.pc.append(z3.Implies(gi + 1 == n, d2 == it["seq"]))
                 genv2["_done"] = mk_bytes(d2)
-            for k, srcg in spec.get("ghost_step", {}).items():
-                genv2[k] = self.clause_val(srcg, st, self.entry, genv)
+            full_, win_ = self._iter_window(n_before)
+            st.calls = win_
+            try:
+                for k, srcg in spec.get("ghost_step", {}).items():
+                    genv2[k] = self.clause_val(srcg, st, self.entry, genv)
+            finally:
+                st.calls = full_
             for k in spec.get("ghost_init", {}):
                 if k not in genv2:
                     genv2[k] = genv[k]
             for k in spec.get("ghost_pre", {}):
                 genv2[k] = genv[k]          # snapshots of the iteration's start stay readable in iter_post
-            self._loop_preserve(spec, lab, genv2)
+            self._loop_preserve(spec, lab, genv2, n_before)
             raise PathAbort()
         else:
             if it["kind"] == "bytes":
@@ -1566,7 +1595,14 @@ class Engine:
             if self._pure(nxt) and cur.k in ("bool", "int", "opt", "bytes", "ilist"):
                 try:
                     saved_pc_len = len(self.st.pc)
-                    nv = self.ev(nxt)
+                    # the right operand only matters when the left one let evaluation continue: an Optional local tested by the
+                    # left operand (`x is not None and x < n`) is known non-None there
+                    saved_env_ = dict(self.st.env)
+                    self.refine(vals[idx], is_and)
+                    try:
+                        nv = self.ev(nxt)
+                    finally:
+                        self.st.env = saved_env_
                     if cur.k == "bool" and nv.k == "bool":
                         cur = mk_bool(z3.And(cur.t, nv.t) if is_and else z3.Or(cur.t, nv.t))
                         continue
@@ -1629,6 +1665,11 @@ class Engine:
             a = mk_int(int(a.t))
         if b.k == "py" and isinstance(b.t, int):
             b = mk_int(int(b.t))
+        # arithmetic on an Optional number: None raises TypeError, otherwise the number
+        if a.k == "opt" and a.t[1].k in ("int", "bool") and b.k in ("int", "bool"):
+            a = mk_int(self.as_int(a))
+        if b.k == "opt" and b.t[1].k in ("int", "bool") and a.k in ("int", "bool"):
+            b = mk_int(self.as_int(b))
         if a.k == "float" or b.k == "float":
             if isinstance(op, (ast.Add, ast.Sub, ast.Mult, ast.Div)):
                 fa, fb = self.to_float(a), self.to_float(b)
@@ -2243,6 +2284,8 @@ class Engine:
             return mk_bool(z3.Implies(a, b))
         if nm == "truthy":
             return mk_bool(self.truth(self.ev(n.args[0])))
+        if nm == "intval":
+            return mk_int(self.as_int(self.ev(n.args[0])))       # the integer an int-like (possibly unmodelled) value stands for
         if nm == "isa":
             return self.isinstance_model(self.ev(n.args[0]), n.args[1].value)
         if nm == "defined":
